@@ -101,3 +101,16 @@ Proof.
   intros Hn Hr Hv Hp HY Hpos Hres Hvd. destruct (quiet_never_stops c s Hp Hv Hr) as [Hs _].
   apply (last_call_reports_total_unstopped_verify c s r Hn Hr Hv); try assumption. unfold has_user_cb. rewrite Hp. reflexivity.
 Qed.
+
+(* C12 for hashing runs: a run with a progress callback that returns a verdict without having been told to stop made
+   its last report with done = total *)
+Theorem last_call_reports_total_unstopped_generate c s r hs :
+  (1 <= cf_hashers c)%nat -> reach c s -> cf_verify c = None -> has_user_cb c = true ->
+  yielded (cf_items c) = map RPiece hs -> cf_total c = zlen hs -> 0 < cf_total c ->
+  s_result s = Some r -> verdict r -> s_stop s = false ->
+  exists pre idx e, s_calls s = pre ++ [(cf_total c, idx, e)].
+Proof.
+  intros Hn Hr Hgen Hcb HY Htot Hpos Hres Hv Hs.
+  pose proof (generate_unstopped_returns_true c s r hs Hn Hr Hgen HY Htot Hres Hv Hs) as ->.
+  exact (last_call_reports_total c s hs Hr Hgen Hcb HY Htot Hpos Hres).
+Qed.
